@@ -81,6 +81,22 @@ class Env(object):
             return [self.decode(x) for x in v]
         if k == "D":
             return {self._hashable(self.decode(a)): self.decode(b) for a, b in v}
+        if k == "X":
+            # numbers that are not builtin int / float (the API can deliver them: numpy scalars, fractions, decimals)
+            kind, _, text = v.partition(":")
+            if kind == "np.float32":
+                return numpy.float32(text)
+            if kind == "np.float16":
+                return numpy.float16(text)
+            if kind == "np.int32":
+                return numpy.int32(text)
+            if kind == "Fraction":
+                from fractions import Fraction
+                return Fraction(text)
+            if kind == "Decimal":
+                from decimal import Decimal
+                return Decimal(text)
+            raise ValueError(e)
         if k == "T":
             return TYPES[v]
         if k == "O":
